@@ -51,7 +51,9 @@ Inductive obs :=
 
 Inductive case :=
 | CHist (tbl : list (bytes * bytes)) (certs : list bytes) (precerts : list nat) (trusted : list nat)
-        (maxr : Z) (align : bool) (ns0 : Z) (steps : list (cop * obs)).
+        (maxr : Z) (align : bool)
+        (indirect : bool)   (* the instance keeps issuance chains in the external CTFE storage (indirectIssuanceChainService) *)
+        (ns0 : Z) (steps : list (cop * obs)).
 
 Definition obs_eqb (a b : obs) : bool :=
   match a, b with
@@ -73,12 +75,17 @@ Section Replay.
   Variable precerts trusted : list nat.
   Variable maxr : Z.
   Variable align : bool.
+  (* external issuance-chain storage: the status decisions take the indirect arms of the C08 model
+     (chain stored before the leaf is built, FixLogLeaf on every served leaf) with a store that
+     works ([env_ok]: store_ok, every leaf fixable); WHAT is served is the RFC 6962 extra_data
+     ([lx]) in both configurations: a store that returns what was stored is not observable. *)
+  Variable indirect : bool.
 
   Definition cert_of (i : nat) : bytes := nth i certs [].
   Definition rH : bytes -> bytes := lookup_hash tbl.
   Definition r_is_precert (c : bytes) : bool := existsb (fun i => bytes_eqb (cert_of i) c) precerts.
   Definition rcfg : config :=
-    {| c_mask := false; c_mapper := fun _ => None; c_indirect := false; c_sth := SthLog; c_maxr := maxr; c_align := align |}.
+    {| c_mask := false; c_mapper := fun _ => None; c_indirect := indirect; c_sth := SthLog; c_maxr := maxr; c_align := align |}.
   Definition rtrusted : list bytes := map cert_of trusted.
 
   Definition rstep := step rH replay_sign r_is_precert rcfg rtrusted wiring_ok.
@@ -168,13 +175,13 @@ End Replay.
 
 Definition run (c : case) : list obs :=
   match c with
-  | CHist tbl certs precerts trusted maxr align ns0 steps =>
-      replay tbl certs precerts trusted maxr align [] (init ns0) (map fst steps)
+  | CHist tbl certs precerts trusted maxr align indirect ns0 steps =>
+      replay tbl certs precerts trusted maxr align indirect [] (init ns0) (map fst steps)
   end.
 
 Definition check (c : case) : bool :=
   match c with
-  | CHist _ _ _ _ _ _ _ steps => list_eqb obs_eqb (run c) (map snd steps)
+  | CHist _ _ _ _ _ _ _ _ steps => list_eqb obs_eqb (run c) (map snd steps)
   end.
 
 (* what the model computes, and the positions where it differs from the observation *)
@@ -186,7 +193,7 @@ Fixpoint diff_at (i : nat) (a b : list obs) : list nat :=
   end.
 Definition explain (c : case) :=
   match c with
-  | CHist _ _ _ _ _ _ _ steps => (diff_at 0 (run c) (map snd steps), run c)
+  | CHist _ _ _ _ _ _ _ _ steps => (diff_at 0 (run c) (map snd steps), run c)
   end.
 
 (* ------------------------------------------------------------------ a toy instance for the
